@@ -634,6 +634,7 @@ static int run_points(long lo, long hi, long batch, S* s) {
     }
     std::string sum = vgx_summary(errpath);
     printf("CRASH %ld %s %s\n", cp, st, sum.c_str());
+    if (getenv("VGX_VERBOSE")) { std::string full = vgx_readfile(errpath); fwrite(full.data(), 1, full.size(), stderr); }
     i = cp + 1;
   }
   fflush(stdout);
